@@ -75,6 +75,21 @@ def rules(ctx, db):
         ctx.ob("R1", "buffer-resliced-by-count:" + name, ok,
                "the buffer handed to the next I/O call is sliced from the running count (bytes already transferred are "
                "neither overwritten nor sent twice)", f)
+        if "read_to_end" in name:
+            # the slice also starts behind what the buffer held before the loop: a length taken outside the cycle
+            base = False
+            for bb, t in sl:
+                for a in t["args"][1:]:
+                    p = op_place(a)
+                    if p is None:
+                        continue
+                    locs, cr, _pl = data_deps(f, p["l"])
+                    for cb, ct in cr:
+                        if call_matches(ct, r"Vec::<T, A>::len$|::buf_len$") and cb not in cyc:
+                            base = True
+            ctx.ob("R1", "read-to-end-appends:" + name, base,
+                   "the first read starts at the buffer's initial length (taken before the loop): bytes already in the buffer "
+                   "are kept and the new ones appended", f)
         # R2 zero transfer exits
         zero_exit = False
         for bi in cyc:
